@@ -1,4 +1,5 @@
 import LenaModel.Model.C03
+import LenaModel.Model.C03Exc
 /-! # C03 model, part 2 — `Split.run` with everything it leaves behind
 
 `Model/C03.lean` transcribes `Split.run` for branches whose methods return normally and reports
@@ -442,9 +443,20 @@ def splitInitC (seqsIsList : Bool) (objs : List (Obj × List Bool)) (bufsize : O
 
 /-! ## harness vocabulary, part 2 -/
 
-/-- a harness element that raises `ValueError`: from `fill` once `boomFill` values were accepted,
-and/or from inside its generator (`compute`/`request`/`run`/`__call__`) after `boomGen` values
-were yielded (if it has that many) -/
+/-- `try: seq.fill(val) except exceptions.LenaStopFill: stopped = True; break` (split.py:377-382,
+395-400) applied to a `fill` that raises an exception of class `c`: the clause catches
+`LenaStopFill` and its subclasses (`ExcClass.isStopSignal`); every other class — the other
+`LenaException` subclasses and `LenaException` itself included — is not caught -/
+def catchStopFill (c : ExcClass) : FillRes ExcClass :=
+  if c.isStopSignal then .stop else .raised c
+
+/-- the same for a class given by its Python name (harness protocol) -/
+def catchStopFillName (c : String) : FillRes String :=
+  if isStopSignalName c then .stop else .raised c
+
+/-- a harness element that raises: from `fill` once `boomFill` values were accepted (an exception
+of class `boomFillExc`), and/or from inside its generator (`compute`/`request`/`run`/`__call__`)
+after `boomGen` values were yielded (if it has that many; class `boomExc`) -/
 structure XSpec where
   base : HSpec
   boomFill : Option Nat
@@ -452,6 +464,9 @@ structure XSpec where
   /-- the exception class raised from inside a generator: `ValueError`, or `LenaStopFill` (which
   `Split.run` catches around `fill` only), or a `BaseException` such as `KeyboardInterrupt` -/
   boomExc : String := "ValueError"
+  /-- the exception class raised by `fill`: any class of `ExcClass` by name.  A `LenaStopFill`
+  (sub)class is the stop signal; anything else leaves `Split.run` -/
+  boomFillExc : String := "ValueError"
 
 /-- a generator that raises after `j` values, if it has at least `j` -/
 def boomAfter (exc : String) (boom : Option Nat) (r : List V × BState) : List V × BState × Option String :=
@@ -464,7 +479,7 @@ def XSpec.ops (tag : Nat) (x : XSpec) : OpsX BState V String :=
   { call := fun s => boomAfter x.boomExc x.boomGen (o.call s)
     fill := fun s v =>
       match x.boomFill with
-      | some k => if s.n ≥ k then (s, .raised "ValueError")
+      | some k => if s.n ≥ k then (s, catchStopFillName x.boomFillExc)
                   else ((o.fill s v).1, if (o.fill s v).2 then .stop else .ok)
       | none => ((o.fill s v).1, if (o.fill s v).2 then .stop else .ok)
     compute := fun s => boomAfter x.boomExc x.boomGen (o.compute s)
